@@ -160,6 +160,7 @@ static int TRACE = 0;
 # include "config.h"
 #endif
 
+#include <errno.h>
 #include <stdlib.h>
 #include <string.h>
 
@@ -634,7 +635,7 @@ EGLPNUM_TYPENAME_QSLIB_INTERFACE EGLPNUM_TYPENAME_QSdata *EGLPNUM_TYPENAME_QSrea
 
 	if ((file = EGioOpen (filename, "r")) == 0)
 	{
-		perror (filename);
+		QSlog("%s: %s", filename, strerror (errno));
 		QSlog("Unable to open \"%s\" for input.", filename);
 	}
 	if (file == NULL)
